@@ -18,6 +18,12 @@ CHECKS["C06"] = dict(level="model_checking", engine="E1-bfs",
    note="Trusted: SQLite's native table as reference; strictly increasing logical write times; typeless columns. Values outside the finite domains are not covered.",
    ref="§5 C06")
 
+CHECKS["C16"] = dict(level="model_checking", engine="E1-bfs",
+   technique="explicit-state breadth-first search to closure (C06 state space); per (state, mutation): pre-commit in-memory dump vs independent protobuf/JSON walker of the bucket vs fresh connection; store immutability invariant; request-log check for no-change commits",
+   text="For every reachable table state over the finite domains and every configuration (entries_per_node 2/3/4/4096 so that trees of depth 0,1,2+ with sparse interior nodes occur; node cache 0/100), every mutation is run as BEGIN; m; COMMIT and the acknowledged version is checked from the bucket alone: every referenced object exists and decodes, arity and absent links are consistent, keys strictly increase, size/height match, the decoded tree equals the writer's dirty in-memory tree field by field (values, all timestamps, tombstone and previous-version fields), a fresh connection loads the same tree and answers full scans and point lookups, no object name is ever re-written with different bytes, and a no-change commit writes nothing.",
+   note="Trusted: the walker's decoding uses only the generated protobuf types and encoding/json; 'fresh process' is a fresh connection with its own (empty) node cache in the same OS process.",
+   ref="§5 C16")
+
 NOT_YET = {}
 
 props = [json.loads(l) for l in open("properties.jsonl")]
